@@ -129,7 +129,7 @@ func (e *Engine) VerifyFunction(fn *ssa.Function) (rep *FuncReport) {
 		env.ensMode = true
 		r.bindLets(env, ct, fr)
 		for _, rq := range ct.Requires {
-			r.assume("true", r.specBool(env, rq.Expr, rq.Text))
+			r.assumeClause(env, "true", rq.Expr, rq.Text)
 		}
 		for _, u := range ct.Uses {
 			r.force = append(r.force, u)
